@@ -804,8 +804,16 @@ TOP:
 				}
 			}
 		case method != nil:
+			// The arguments are put together as for the other resolvers:
+			// variables replaced, values coerced to the declared types,
+			// required arguments present.
+			am, ea2 := root.formArgs(vars, field, fd)
+			if 0 < len(ea2) {
+				ea = append(ea, ea2...)
+				break
+			}
 			var args []reflect.Value
-			if args, err = root.formReflectArgs(ov, vars, field, fd, method); err != nil {
+			if args, err = root.formReflectArgs(ov, am, field, fd, method); err != nil {
 				ea = append(ea, resWarn(field.line, field.col, "%s", err))
 				break
 			}
@@ -846,7 +854,7 @@ TOP:
 // is null becomes the zero value of the parameter.
 func (root *Root) formReflectArgs(
 	ov reflect.Value,
-	vars map[string]interface{},
+	am map[string]interface{},
 	field *Field,
 	fd *FieldDef,
 	method *reflect.Value) (args []reflect.Value, err error) {
@@ -859,13 +867,7 @@ func (root *Root) formReflectArgs(
 			break
 		}
 		pt := mt.In(len(args))
-		var v interface{}
-		if av := field.getArg(a.N); av != nil {
-			v = av.Value
-			if vr, ok := v.(Var); ok {
-				v = vars[string(vr)]
-			}
-		}
+		v := am[a.N]
 		rv := reflect.ValueOf(v)
 		switch {
 		case !rv.IsValid():
